@@ -12,6 +12,9 @@ pub struct ManCase {
     pub spec: CmdSpec,
     /// (slot path, adversarial text) substitutions applied on top of `spec`
     pub subst: Vec<(String, String)>,
+    /// subcommand names of a line (`prog sub ...`) that the same `Command` value parses before the pages are rendered
+    #[serde(default)]
+    pub parsed_first: Option<Vec<String>>,
 }
 
 pub const ADVERSARIAL: &[&str] = &[
@@ -389,6 +392,13 @@ pub fn run_man(case: &ManCase, ctx: &mut Ctx) -> Verdict {
     }
     // ---- base: no panic, deterministic, coverage at every level
     let mut root = case.spec.to_clap();
+    // (a multicall command renames itself when it parses: what its pages are called afterwards is not this property's business)
+    if let Some(line) = case.parsed_first.as_ref().filter(|_| !case.spec.settings.multicall) {
+        // (the outcome of the parse is C01's business; the definition must still render afterwards)
+        let argv: Vec<String> = if case.spec.settings.no_binary_name { line.clone() } else { std::iter::once("prog".to_owned()).chain(line.iter().cloned()).collect() };
+        let _ = catch(std::panic::AssertUnwindSafe(|| root.try_get_matches_from_mut(argv).map(|_| ()).map_err(|_| ())));
+        ctx.label("rendered-after-a-parse");
+    }
     root.build();
     fn walk(level: &CmdSpec, cmd: &clap::Command, ctx: &mut Ctx) -> Verdict {
         let page = match render(cmd) {
@@ -547,7 +557,20 @@ impl Property for Man {
             let text = (*t.pick(ADVERSARIAL)).to_owned();
             subst.push((path, text));
         }
-        ManCase { spec, subst }
+        // a quarter of the cases render from a definition that has already parsed a line walking down the tree
+        let parsed_first = if t.chance(1, 4) {
+            let mut line = Vec::new();
+            let mut level = &spec;
+            while !level.subs.is_empty() && !t.chance(1, 4) {
+                let sc = &level.subs[t.choose(level.subs.len())];
+                line.push(sc.name.clone());
+                level = sc;
+            }
+            Some(line)
+        } else {
+            None
+        };
+        ManCase { spec, subst, parsed_first }
     }
     fn run(&self, case: &ManCase, ctx: &mut Ctx) -> Verdict {
         run_man(case, ctx)
